@@ -521,6 +521,10 @@ class Models:
             src = e.ev(args[0], st, fr)
             if isinstance(src, ObjLV):
                 self.copy_container(st, obj, src); return obj
+        if len(args) == 1 and t.kind == 'set' and '&&' not in ctor_t:
+            src = e.ev(args[0], st, fr)
+            if isinstance(src, ObjLV) and src.ty.kind == 'set' and (self.is_edge_set(src) or self.is_scalar_set(src)):
+                self.copy_container(st, obj, src); return obj      # copy construction: members (and stored edges) of the source
         if t.kind == 'vector':
             a0 = e.ev(args[0], st, fr)
             if isinstance(a0, ObjLV) and a0.ty.kind == 'vector' and len(args) == 1:
